@@ -15,6 +15,8 @@ import (
 func init() {
 	register("C09", "component-wise structure of Eq instances; Hashable built on the matching Eq, deterministic and never finer than it", func(c *core.Ctx) {
 		ContraProj(c, "R-CONTRA", []*packages.Package{c.Pkg("eq"), c.Pkg("hash")})
+		PtrDeref(c, "R-PTRDEREF", []*packages.Package{c.Pkg("eq"), c.Pkg("hash")})
+		BothSizes(c, "R-BOTHSIZES", []*packages.Package{c.Pkg("eq"), c.Pkg("hash")})
 		eqh := []*packages.Package{c.Pkg("eq"), c.Pkg("hash")}
 		MapOK(c, "R-MAPOK", eqh, 0) // the one lookup disappears when the closure is written with maps.EqualFunc
 		Mirror(c, "R-MIRROR", eqh, typeclassBinMethods, false, nil, 40)
